@@ -973,8 +973,14 @@ def json_compat_obj_decode(data_type, obj, caller_permissions=None,
         return decoder.make_stone_friendly(
             data_type, obj, True)
     else:
-        return decoder.json_compat_obj_decode_helper(
+        val = decoder.json_compat_obj_decode_helper(
             data_type, obj)
+        if isinstance(data_type, (bv.List, bv.Map, bv.Nullable)):
+            # The items of a container are normally validated when the
+            # container is assigned to a struct field or union member. A
+            # top-level container is never assigned, so validate it here.
+            val = data_type.validate(val)
+        return val
 
 def _strftime(dt, fmt):
     return dt.strftime(fmt)
